@@ -91,11 +91,12 @@ def _assign_value(f, env, rv, b, i):
     return None
 
 
-def extract(f, target=None, max_paths=4096, start=0, stop=(), value_at=None):
+def extract(f, target=None, max_paths=4096, start=0, stop=(), value_at=None, loop_atoms=None):
     """Enumerate paths.  Without `target`: result = value assigned to `_0` at return.
     With `target` (a block id): result = ('const', True) when the path passes through
     `target` (a block or a set of blocks), ('const', False) when it returns, diverges or
-    reaches a block in `stop` without it.
+    reaches a block in `stop` without it.  `loop_atoms` = {loop head block: (Atom, block after
+    the loop)} summarises all-quantifier loops recognised by the caller (see all_loop).
     Returns list of (conds, result), conds = [(Atom, bool), ...]."""
     paths = []
     is_bool_fn = str(f.locals[0]) == "bool"
@@ -113,6 +114,13 @@ def extract(f, target=None, max_paths=4096, start=0, stop=(), value_at=None):
             # end of the analysed region (e.g. the loop head): target not reached
             paths.append((conds, ("const", False)))
             return
+        if loop_atoms and b in loop_atoms:
+            # a summarised `for x in xs { if !p(x) { return false } }` loop: one atom
+            # ("p holds for all elements"): true -> continue after the loop, false -> the
+            # function returns `false` from inside the loop
+            atom, after = loop_atoms[b]
+            paths.append((conds + [(atom, False)], ("const", False)))
+            return run(after, env, conds + [(atom, True)], onpath, hit)
         if value_at is not None and b == value_at[0]:
             # read the boolean local `value_at[1]` on entry to this block
             v = env.get(value_at[1])
@@ -487,3 +495,39 @@ def evaluate_lin(paths, value_of):
         if all(value_of(a) == v for a, v in conds):
             return res
     raise Unsupported("no path matches the valuation")
+
+
+def all_loop(f, is_subject_iter, pred_atom_ok):
+    """Recognise `for x in <subject> { if !pred(x) { return false } }` in a bool function.
+    is_subject_iter(next_call_terminator) -> bool tells whether a `next()` call iterates the
+    subject; pred_atom_ok(atom) -> bool whether an atom is the element predicate.  Returns
+    {head block: (Atom('call', head, 'loop-all', [pred atom]), after-loop block)} or {}."""
+    from .analysis import call_result_tests, returns_of
+    out = {}
+    for b in sorted(f.reachable(0)):
+        t = f.blocks[b]["t"]
+        if t["k"] != "call" or not callee_names(t)[0].endswith("Iterator::next") or not is_subject_iter(t):
+            continue
+        ts, _ = call_result_tests(f, b)
+        some = [tg for x in ts for _, tg in x.success]
+        none = [tg for x in ts for _, tg in x.failure if f.blocks[tg]["t"]["k"] != "unreachable"]
+        if len(some) != 1 or len(none) != 1:
+            continue
+        false_rets = {bb for bb, i, rv in returns_of(f) if i is not None and rv["k"] == "use" and rv["o"]["k"] == "const" and rv["o"].get("v") == "false"}
+        other_rets = {bb for bb, i, rv in returns_of(f)} - false_rets
+        targets = {bb: "false" for bb in false_rets}
+        targets.update({bb: "other" for bb in other_rets})
+        try:
+            paths = extract_outcomes(f, some[0], stop={b}, targets=targets)
+        except Unsupported:
+            continue
+        atoms = atoms_of([(c, ("const", True)) for c, l in paths])
+        if len(atoms) != 1 or not pred_atom_ok(atoms[0]):
+            continue
+        pa = atoms[0]
+        try:
+            if outcome(paths, lambda a: True) == "stop" and outcome(paths, lambda a: False) == "false":
+                out[b] = (Atom("call", b, "loop-all", [pa], term=pa.term), none[0])
+        except Unsupported:
+            continue
+    return out
